@@ -171,6 +171,91 @@ func runC17(c *Ctx) {
 		c.hist(fmt.Sprintf("http:%s:created", kind))
 		inst.Close()
 	}
+	// the decision does not depend on what happened to the name before: a valid name is accepted
+	// again after its bucket was deleted or force-deleted (also across a restart of the persistent
+	// backends), and a bucket comes into being through create-bucket only — not through an upload
+	// completed after its bucket was deleted
+	for _, kind := range c.kinds([]string{"mem", "bolt", "fsM-mem", "fsM-dir"}) {
+		inst, err := impl.New(kind, c.Tmp)
+		if err != nil {
+			c.mismatch(Mismatch{Kind: "model", Backend: kind, Finger: "setup", Impl: err.Error()})
+			continue
+		}
+		var trace []string
+		do := func(rq impl.Req) impl.Resp {
+			trace = append(trace, rq.Method+" "+rq.Path+map[bool]string{true: "?" + rq.Query, false: ""}[rq.Query != ""])
+			return inst.Do(rq)
+		}
+		fail := func(fp, got, want string) {
+			c.mismatch(Mismatch{Kind: "spec", Backend: kind, Finger: fp, Case: append([]string{}, trace...), Impl: got, Spec: want})
+		}
+		listed := func() string {
+			ns := listBucketNames(inst.Do(impl.Req{Method: "GET", Path: "/"}).Body)
+			sort.Strings(ns)
+			return strings.Join(ns, ",")
+		}
+		for _, name := range []string{"seed-bucket.one", "abc", "a1.b2-c3", "my.bucket-3", "xn--abc"} {
+			if _, spec, err := c.D.Ask("validate " + drv.HexS(name)); err != nil || spec != "ok" {
+				c.hist("lifecycle:name-not-valid:" + name)
+				continue
+			}
+			p := "/" + name
+			for round, how := range []string{"delete", "force-delete", "force-delete-nonempty", "reopen-force-delete"} {
+				c.R.Evaluations++
+				if r := do(impl.Req{Method: "PUT", Path: p}); r.Status != 200 {
+					fail("lifecycle:valid-name-refused", fmt.Sprintf("create of %q (round %d, after %s) -> %d %s", name, round, how, r.Status, r.ErrCode()), "a valid name that names no bucket is accepted")
+					break
+				}
+				if got := listed(); got != name {
+					fail("lifecycle:listbuckets", "listed: "+got, "listed: "+name)
+					break
+				}
+				switch how {
+				case "delete":
+					do(impl.Req{Method: "DELETE", Path: p})
+				case "force-delete":
+					do(impl.Req{Method: "DELETE", Path: p, Header: map[string]string{"x-minio-force-delete": "true"}})
+				case "force-delete-nonempty":
+					do(impl.Req{Method: "PUT", Path: p + "/obj", Body: bytes.NewReader([]byte("x"))})
+					do(impl.Req{Method: "DELETE", Path: p, Header: map[string]string{"x-minio-force-delete": "true"}})
+				case "reopen-force-delete":
+					do(impl.Req{Method: "PUT", Path: p + "/obj", Body: bytes.NewReader([]byte("x"))})
+					do(impl.Req{Method: "DELETE", Path: p, Header: map[string]string{"x-minio-force-delete": "true"}})
+					if kind != "mem" && kind != "fsM-mem" {
+						trace = append(trace, "reopen")
+						if err := inst.Reopen(); err != nil {
+							fail("lifecycle:reopen", err.Error(), "the store opens")
+						}
+					}
+				}
+				if got := listed(); got != "" {
+					fail("lifecycle:listbuckets", "after "+how+" listed: "+got, "no bucket")
+					break
+				}
+			}
+			// an upload completed after its bucket was deleted creates no bucket
+			c.R.Evaluations++
+			do(impl.Req{Method: "PUT", Path: p})
+			ir := do(impl.Req{Method: "POST", Path: p + "/mp/obj", Query: "uploads"})
+			id := between(string(ir.Body), "<UploadId>", "</UploadId>")
+			if id != "" {
+				body := []byte("part-one")
+				pr := do(impl.Req{Method: "PUT", Path: p + "/mp/obj", Query: "uploadId=" + id + "&partNumber=1", Body: bytes.NewReader(body)})
+				do(impl.Req{Method: "DELETE", Path: p})
+				etag := pr.Header.Get("ETag")
+				cr := do(impl.Req{Method: "POST", Path: p + "/mp/obj", Query: "uploadId=" + id, Body: bytes.NewReader([]byte("<CompleteMultipartUpload><Part><PartNumber>1</PartNumber><ETag>" + etag + "</ETag></Part></CompleteMultipartUpload>"))})
+				if got := listed(); got != "" {
+					fail("lifecycle:bucket-not-created", fmt.Sprintf("complete answered %d %s; listed: %s", cr.Status, cr.ErrCode(), got), "no bucket: the only one was deleted")
+				}
+				if hr := do(impl.Req{Method: "HEAD", Path: p}); hr.Status == 200 {
+					fail("lifecycle:bucket-not-created", "HEAD bucket -> 200", "the deleted bucket stays deleted")
+				}
+			}
+			do(impl.Req{Method: "DELETE", Path: p, Header: map[string]string{"x-minio-force-delete": "true"}})
+		}
+		c.hist(fmt.Sprintf("http:%s:lifecycle", kind))
+		inst.Close()
+	}
 	// auto-bucket: an upload into a bucket that does not exist creates it — a bucket all the
 	// same: whatever then shows in the bucket list must have a name the rules accept
 	for _, kind := range c.kinds([]string{"mem", "bolt", "fsM-mem", "fsM-dir"}) {
@@ -249,3 +334,4 @@ func classifyName(n string) string {
 		return "single-label"
 	}
 }
+
